@@ -500,3 +500,27 @@ func (e *Engine) typeInv(v *Term, t types.Type, mode string, alloc *Term) *Term 
 	}
 	return TTrue
 }
+
+// Elem reads element off+idx of a backing-array value through a named function, so that
+// quantified facts about slice elements have a usable trigger (elem(A, off, i) instead of
+// select(A, off + i), whose arithmetic index cannot be matched).
+func (e *Engine) Elem(inner, off, idx *Term) *Term {
+	_, es := arrParts(inner.Sort)
+	name := "elem$" + cleanName(strings.NewReplacer("(", "", ")", "", " ", "_").Replace(es))
+	e.reg.mu.Lock()
+	_, known := e.reg.funs[name]
+	e.reg.mu.Unlock()
+	if !known {
+		e.reg.AddFun(name, []string{inner.Sort, SInt, SInt}, es)
+		a, o, i := Var("el$A", inner.Sort), Var("el$o", SInt), Var("el$i", SInt)
+		app := App(name, es, a, o, i)
+		e.reg.AddAxiom(name, "def:"+name, Forall([]*Term{a, o, i}, Eq(app, App("select", es, a, App("+", SInt, o, i))), []*Term{app}), 0)
+	}
+	// literal offsets and indices need no indirection
+	if o, ok := off.intLitVal(); ok {
+		if i, ok2 := idx.intLitVal(); ok2 {
+			return Select(inner, BigLit(new(big.Int).Add(o, i)))
+		}
+	}
+	return App(name, es, inner, off, idx)
+}
